@@ -3,6 +3,23 @@
 import json, subprocess
 ALL=[f"C{i:02d}" for i in range(1,21)]
 CHECKS={
+ "C01":("exploration","lock-step reference-model monitor: generated histories of nested stepped slices and writes (Set/Set1-3/Apply/Apply1/ApplySlice/CopyFrom) on all 8 element types and both storage back-ends, compared with a shadow array model after every operation (whole caller-owned storage + every live view)",
+        "Held on the executed histories; the shadow model defines slicing literally from the property text, so it shares no stride algebra with the implementation.","shadow model; in-bounds triples; C memory = mmap with guard pages / malloc with canaries","3 C01"),
+ "C02":("exploration","lock-step reference-model monitor incl. Reshape/ReshapeFast/Unroll/Maximum/Minimum/bulk helpers, contiguity truth table in both directions, aliasing probes, explicit dest-kind x source-kind x op grid for the two-array operations (fast and general paths both required to be observed), exhaustive small-box enumeration of the integer helpers",
+        "Held on the executed histories and the complete grid; integer helpers exhaustive on vectors of length<=4 with entries 0..5.","two-array sources disjoint from the destination or identical view; Argmax tie rule free","3 C02"),
+ "C03":("exploration","lock-step differential monitor Go-backed vs C-backed array under the same history with guard pages before/after the caller buffer, canaries and AddressSanitizer (-asan build); C ABI monitor: RunSingleModel in an ASan-built libopenwater.so driven by an ASan C program on exactly-sized malloc buffers vs the Go API (bit-exact), all 41 models, three state modes",
+        "Held on the executed histories / ABI cases; memory safety is observed by guard pages, ASan red zones and canaries, which miss far in-buffer strays that do not change a compared value.","guard pages/ASan/canaries; Go API as reference for the ABI","3 C03"),
+ "C05":("exploration","Go race detector (-race build) over multi-cell Runs of all 41 models with shared parameter columns/input blocks and no monitor state; schedule-independence monitor with proxy arrays (request log + seeded delays) across GOMAXPROCS x delay seeds compared with the sequential cell-by-cell result; ow-sim built with -race on random model graphs",
+        "Race-freedom holds for the accesses of the executed inputs (happens-before analysis covers all interleavings of those accesses); schedule independence held on the observed arrival orders (count in evidence).","race detector semantics; shim canary word stands for HDF5 non-thread-safety","3 C05"),
+ "C09":("translation_validation","regenerate-and-compare: the project's own generators (genny, ow-specgen) are executed on a scratch copy of the working tree and all 47 generated files byte-compared both ways; independent OW-SPEC parser compared field-by-field with the live catalogue's Description()",
+        "Exhaustive over the finite set of generated artefacts and spec blocks of the working tree.","genny version pinned by go.mod; own spec parser","3 C09"),
+ "C16":("exploration","invariant monitors: per-timestep algebraic identities for 20 partition/conversion/generation models on generated parameters and series, branch coverage tags, two-run linearity relation f(a*x)=a*f(x)",
+        "Held on every observed timestep of the executed cases.","tolerances 1e-12..1e-9; rating queries inside the table","3 C16"),
+ "C18":("exploration","contract monitors around FindRoot (wrapped test functions log every evaluation point; bracket, value, better-end and halving-budget clauses) over 7 function families x guesses x derivative modes x budgets, and around Piecewise (knots, interior, outside, NaN; contiguous and strided table views)",
+        "Held on the executed calls; the halving-budget clause is asserted only where a Lipschitz bound proves sufficiency.","Lipschitz bounds of the test families; 4-ulp knot tolerance","3 C18"),
+ "C20":("exploration","ordering/finite/identity monitors on a dense (temperature x humidity x elevation) grid and random points incl. the 0 C branch point and RH=100%",
+        "Held on every evaluated grid point; monotonicity is only observed between adjacent grid points.","grid 0.05 C x 0.5 % (thorough)","3 C20"),
+
  "C04":("exploration","bit-exact differential monitor: N-cell Run vs every cell run alone (own parameter column, state row, input block), snapshots of inputs/parameters/padding compared after Run",
         "Held on the (model, N, P, B, T, padding, init/hot) grid x seeded domains that was executed; nothing is claimed for shapes or values not run.","trusted: harness array builders, sampling domains (DESIGN Appendix A)","3 C04"),
  "C06":("exploration","differential monitor: uninterrupted Run vs chained segment Runs carrying the returned states (all stateful models, many split schedules, init and hot starts)",
